@@ -52,9 +52,25 @@ static int cb_chain(uint8_t p1, uint8_t p2, uint16_t p3)
 	return 0;
 }
 
+/* everything in l1s outside the scheduler is painted; the scheduler must never write there */
+static int paint_intact(void)
+{
+	const uint8_t *p = (const uint8_t *) &l1s, *a = (const uint8_t *) &l1s.tdma_sched;
+	size_t i;
+	for (i = 0; i < sizeof(l1s); i++) {
+		if (p + i >= a && p + i < a + sizeof(l1s.tdma_sched))
+			continue;
+		if (p[i] != 0xa5)
+			return (int) (p + i - a);
+	}
+	return 0x7fffffff;
+}
+
 int main(void)
 {
 	static char line[8192];
+	memset(&l1s, 0xa5, sizeof(l1s));
+	memset(&l1s.tdma_sched, 0, sizeof(l1s.tdma_sched));
 	sched_gsmtime_init();
 	while (fgets(line, sizeof(line), stdin)) {
 		int off, prio, p1, p2, p3, rc;
@@ -143,6 +159,15 @@ int main(void)
 		case 'R':
 			tdma_sched_reset();
 			break;
+		}
+		{
+			int off_bad = paint_intact();
+			if (off_bad != 0x7fffffff) {
+				printf("CORRUPT %d\n", off_bad);
+				memset(&l1s, 0xa5, (size_t) ((uint8_t *) &l1s.tdma_sched - (uint8_t *) &l1s));
+				memset((uint8_t *) &l1s.tdma_sched + sizeof(l1s.tdma_sched), 0xa5,
+					sizeof(l1s) - (size_t) ((uint8_t *) &l1s.tdma_sched - (uint8_t *) &l1s) - sizeof(l1s.tdma_sched));
+			}
 		}
 		fflush(stdout);
 	}
